@@ -269,7 +269,7 @@ impl Prop for C13 {
         if c.doc.triples.iter().any(|(_, _, o)| matches!(o, LT::EscLit(_))) { let t = c.doc.triples.iter().map(|(s, p, o)| (s.clone(), *p, match o { LT::EscLit(n) => LT::Lit(*n), x => x.clone() })).collect(); out.push(LoadCase { doc: Doc { triples: t, seed: c.doc.seed }, ..c.clone() }); }
         out
     }
-    fn rule(&self) -> String { "A case is one abstract triple list (IRIs, plain and escaped literals, blank nodes) rendered to N-Triples, N-Quads, line-oriented Turtle, N3 and RDF/XML with line counts at and around the internal chunk boundaries (999..2500 lines; 8191..8193 triples for RDF/XML), comments and blank lines at PRNG-chosen positions, loaded into an empty or pre-populated database (quads, named graphs, prefix, pre-filled dictionary), optionally twice, under a simulated rayon pool, simulated CPU count and (RDF/XML) shuttle-scheduled crossbeam workers. Oracle: lexical quads after = before + document triples, catalog unchanged, formats agree. Non-trivial = at least 2 distinct triples; distinct = hash of (size, render seed, formats). Documents use RDF / RDFS schema properties as predicates, '#' inside IRIs, literals and trailing N3 comments, 2-4-byte characters; the prior database may bind the document's own prefixes to other namespaces, may have had an older snapshot of its dictionary merged back, and may have held the same triples before a clear / drop.".into() }
+    fn rule(&self) -> String { "A case is one abstract triple list (IRIs, plain and escaped literals, blank nodes) rendered to N-Triples, N-Quads, line-oriented Turtle, N3 and RDF/XML with line counts at and around the internal chunk boundaries (999..2500 lines; 8191..8193 triples for RDF/XML), comments and blank lines at PRNG-chosen positions, loaded into an empty or pre-populated database (quads, named graphs, prefix, pre-filled dictionary), optionally twice, under a simulated rayon pool, simulated CPU count and (RDF/XML) shuttle-scheduled crossbeam workers. Oracle: lexical quads after = before + document triples, catalog unchanged, formats agree. Non-trivial = at least 2 distinct triples; distinct = hash of (size, render seed, formats). Documents use RDF / RDFS schema properties as predicates, '#' inside IRIs, literals and trailing N3 comments, 2-4-byte characters; the prior database may bind the document's own prefixes to other namespaces, may have had an older snapshot of its dictionary merged back, and may have held the same triples before a clear / drop. Half of the cases run a stalled-node thread that lets simulated time jump while the RDF/XML workers wait.".into() }
     fn assumptions(&self) -> Vec<String> { vec!["'as written' is taken in Kolibrie's storage convention as N-Triples/N-Quads/RDF-XML apply it (IRI without brackets, plain literal by decoded lexical value, blank-node label verbatim)".into(), "RDF/XML documents use rdf:Description + property elements with IRI subjects and IRI / plain-literal objects".into()] }
     fn real_vs_stub(&self) -> serde_json::Value { serde_json::json!({"real": ["SparqlDatabase::{parse_ntriples_and_add, parse_nquads_and_add, parse_turtle, parse_n3, parse_rdf}", "Dictionary::merge", "quick-xml"], "simulated": ["rayon (sim-rayon)", "crossbeam channel + scope (sim-crossbeam on shuttle threads)", "CPU count (sysconf interposer)", "hash keys"], "not_run": ["parse_rdf_from_file (filesystem)"]}) }
     fn matches_known(&self, c: &LoadCase, v: &Violation, matcher: &str) -> bool {
